@@ -73,7 +73,15 @@ pub enum Error {
     },
     #[error("parsing failed: '{0}'")]
     Parse(String),
+    #[error("Nesting exceeds {MAX_NESTING_DEPTH} levels")]
+    TooDeeplyNested,
 }
+
+/// How deep arrays and dictionaries may nest before we give up.
+///
+/// Parsing is recursive, so without a limit hostile input overflows the stack.
+/// Real files nest a dozen or so levels deep.
+const MAX_NESTING_DEPTH: usize = 256;
 
 #[derive(Debug, PartialEq)]
 pub(crate) enum Token<'a> {
@@ -176,7 +184,7 @@ fn escape_string(buf: &mut String, s: &str) {
 
 impl Plist {
     pub fn parse(s: &str) -> Result<Plist, Error> {
-        let (plist, _ix) = Plist::parse_rec(s, 0)?;
+        let (plist, _ix) = Plist::parse_rec(s, 0, 0)?;
         // TODO: check that we're actually at eof
         Ok(plist)
     }
@@ -277,7 +285,10 @@ impl Plist {
         }
     }
 
-    fn parse_rec(s: &str, ix: usize) -> Result<(Plist, usize), Error> {
+    fn parse_rec(s: &str, ix: usize, depth: usize) -> Result<(Plist, usize), Error> {
+        if depth > MAX_NESTING_DEPTH {
+            return Err(Error::TooDeeplyNested);
+        }
         let (tok, mut ix) = Token::lex(s, ix)?;
         match tok {
             Token::Atom(s) => Ok((Plist::parse_atom(s), ix)),
@@ -295,7 +306,7 @@ impl Plist {
                     if next.is_none() {
                         return Err(Error::ExpectedEquals);
                     }
-                    let (val, next) = Self::parse_rec(s, next.unwrap())?;
+                    let (val, next) = Self::parse_rec(s, next.unwrap(), depth + 1)?;
                     dict.insert(key_str, val);
                     if let Some(next) = Token::expect(s, next, b';') {
                         ix = next;
@@ -310,7 +321,7 @@ impl Plist {
                     if let Some(ix) = Token::expect(s, ix, b')') {
                         return Ok((Plist::Array(list), ix));
                     }
-                    let (val, next) = Self::parse_rec(s, ix)?;
+                    let (val, next) = Self::parse_rec(s, ix, depth + 1)?;
                     list.push(val);
                     if let Some(ix) = Token::expect(s, next, b')') {
                         return Ok((Plist::Array(list), ix));
@@ -395,7 +406,7 @@ impl Plist {
 impl FromPlist for Plist {
     fn parse(tokenizer: &mut Tokenizer) -> Result<Self, Error> {
         let Tokenizer { content, idx } = tokenizer;
-        let (val, end_idx) = Self::parse_rec(content, *idx)?;
+        let (val, end_idx) = Self::parse_rec(content, *idx, 0)?;
         *idx = end_idx;
         Ok(val)
     }
@@ -756,6 +767,13 @@ impl<'a> Tokenizer<'a> {
     ///
     /// Named to match parse_rec.
     pub(crate) fn skip_rec(&mut self) -> Result<(), Error> {
+        self.skip_rec_at_depth(0)
+    }
+
+    fn skip_rec_at_depth(&mut self, depth: usize) -> Result<(), Error> {
+        if depth > MAX_NESTING_DEPTH {
+            return Err(Error::TooDeeplyNested);
+        }
         match self.lex()? {
             Token::Atom(..) | Token::String(..) | Token::Data(..) => Ok(()),
             Token::OpenBrace => loop {
@@ -765,7 +783,7 @@ impl<'a> Tokenizer<'a> {
                 let key = self.lex()?;
                 Token::try_into_smolstr(key)?;
                 self.eat(b'=')?;
-                self.skip_rec()?;
+                self.skip_rec_at_depth(depth + 1)?;
                 self.eat(b';')?;
             },
             Token::OpenParen => {
@@ -773,7 +791,7 @@ impl<'a> Tokenizer<'a> {
                     return Ok(());
                 }
                 loop {
-                    self.skip_rec()?;
+                    self.skip_rec_at_depth(depth + 1)?;
                     if self.eat(b')').is_ok() {
                         return Ok(());
                     }
@@ -950,6 +968,24 @@ mod tests {
     use std::collections::BTreeMap;
 
     use super::*;
+
+    #[test]
+    fn deep_nesting_is_an_error_not_a_stack_overflow() {
+        for (open, close) in [("(", ")"), ("{a=", ";}")] {
+            let ok = format!("{}1{}", open.repeat(100), close.repeat(100));
+            assert!(Plist::parse(&ok).is_ok());
+            assert!(Tokenizer::new(&ok).skip_rec().is_ok());
+
+            for closers in [0, 100_000] {
+                let deep = format!("{}1{}", open.repeat(100_000), close.repeat(closers));
+                assert!(matches!(Plist::parse(&deep), Err(Error::TooDeeplyNested)));
+                assert!(matches!(
+                    Tokenizer::new(&deep).skip_rec(),
+                    Err(Error::TooDeeplyNested)
+                ));
+            }
+        }
+    }
 
     #[test]
     fn parse_unquoted_strings() {
